@@ -1,10 +1,577 @@
-//! implementation-side drivers of work package "timed" (see docs/AGENT_GUIDE.md)
-#![allow(unused_imports, dead_code)]
-use crate::util::{hex, unhex};
+//! implementation-side drivers of work package "timed" (C12, C13, C14)
+//!
+//! pool     <I> <T> <M> <t:op>...   the real `Client` (pool, reaper, heartbeat) on in-memory transports
+//!                                  against in-process server sessions, tokio virtual time
+//! bpool    <I> <T> <M> <t:op>...   the bare `SessionPool` public API, virtual time
+//! hb       <mode> <I> <T> <H> <delay|x>...  a client session with heartbeat against a scripted peer
+//! poolreal <I> <T> <M> <t:op>...   real `Server` + real `Client` over loopback TLS in REAL time
+//!
+//! All times are milliseconds since the start of the case.
+#![allow(dead_code, unused_imports)]
+use crate::transport::{self, ChanReader, REv, RecWriter};
+use anytls_rs::client::{Client, SessionPool, SessionPoolConfig};
+use anytls_rs::padding::PaddingFactory;
+use anytls_rs::protocol::{Command, Frame, FrameCodec};
+use anytls_rs::session::{Session, SessionHeartbeatConfig, Stream};
+use anytls_rs::util::{authenticate_client, hash_password};
+use bytes::BytesMut;
+use std::collections::VecDeque;
+use std::future::Future;
+use std::pin::Pin;
+use std::sync::atomic::{AtomicUsize, Ordering};
+use std::sync::{Arc, Mutex};
+use std::task::{Context, Poll};
+use tokio::io::{AsyncRead, AsyncReadExt, AsyncWrite, AsyncWriteExt};
+use tokio::sync::{mpsc, oneshot};
+use tokio::time::{Duration, Instant};
+use tokio_util::codec::{Decoder, Encoder};
+
+const PASSWORD: &str = "verif-timed";
+
+type BoxR = Box<dyn AsyncRead + Send + Unpin>;
+type BoxW = Box<dyn AsyncWrite + Send + Unpin>;
+
+fn paused_rt() -> tokio::runtime::Runtime {
+    tokio::runtime::Builder::new_current_thread()
+        .enable_all()
+        .start_paused(true)
+        .build()
+        .unwrap()
+}
+
+fn ms(v: u64) -> Duration {
+    Duration::from_millis(v)
+}
+
+/// let every runnable task finish what it can do at the current instant: with the paused clock a
+/// timer only fires once the runtime is otherwise idle, so this returns after quiescence (+1 ms)
+async fn settle() {
+    tokio::time::sleep(ms(1)).await;
+}
+
+/// writer whose first write waits until the harness opens the gate (models the time a dial takes:
+/// the request is past `get_idle_session` and inside `create_new_session`)
+struct GateWriter {
+    inner: RecWriter,
+    gate: Option<oneshot::Receiver<()>>,
+}
+
+impl AsyncWrite for GateWriter {
+    fn poll_write(
+        mut self: Pin<&mut Self>,
+        cx: &mut Context<'_>,
+        buf: &[u8],
+    ) -> Poll<std::io::Result<usize>> {
+        if let Some(g) = self.gate.as_mut() {
+            match Pin::new(g).poll(cx) {
+                Poll::Pending => return Poll::Pending,
+                Poll::Ready(_) => self.gate = None,
+            }
+        }
+        Pin::new(&mut self.inner).poll_write(cx, buf)
+    }
+    fn poll_flush(mut self: Pin<&mut Self>, cx: &mut Context<'_>) -> Poll<std::io::Result<()>> {
+        Pin::new(&mut self.inner).poll_flush(cx)
+    }
+    fn poll_shutdown(mut self: Pin<&mut Self>, cx: &mut Context<'_>) -> Poll<std::io::Result<()>> {
+        Pin::new(&mut self.inner).poll_shutdown(cx)
+    }
+}
+
+// ------------------------------------------------------------------------------------------------
+// in-process server side of the `pool` driver
+
+#[derive(Default)]
+struct Shared {
+    /// server session of the k-th connector invocation (None until authenticated)
+    servers: Vec<Option<Arc<Session>>>,
+    /// gates of dials that are still waiting (FIFO)
+    gates: VecDeque<oneshot::Sender<()>>,
+    /// the next dial has to wait at a gate
+    gated: bool,
+    dials: usize,
+    /// streams kept alive on the server side
+    keep: Vec<Arc<Stream>>,
+}
+
+fn make_connector(shared: Arc<Mutex<Shared>>) -> anytls_rs::client::VerifConnector {
+    Arc::new(move || {
+        let (c2s_w, _h1, c2s_r, _tx1) = transport::pipe();
+        let (s2c_w, _h2, s2c_r, _tx2) = transport::pipe();
+        let (idx, gate) = {
+            let mut sh = shared.lock().unwrap();
+            let idx = sh.dials;
+            sh.dials += 1;
+            sh.servers.push(None);
+            let gate = if sh.gated {
+                let (tx, rx) = oneshot::channel();
+                sh.gates.push_back(tx);
+                Some(rx)
+            } else {
+                None
+            };
+            (idx, gate)
+        };
+        let shared2 = shared.clone();
+        tokio::spawn(async move {
+            let padding = PaddingFactory::default();
+            let hash = hash_password(PASSWORD);
+            let mut r = c2s_r;
+            if authenticate_client(&mut r, &hash, &padding).await.is_err() {
+                return;
+            }
+            let mut s = Session::new_server(r, s2c_w, padding);
+            let (tx, mut rx) = mpsc::unbounded_channel::<Arc<Stream>>();
+            s.set_stream_callback(tx);
+            let s = Arc::new(s);
+            shared2.lock().unwrap().servers[idx] = Some(s.clone());
+            let s1 = s.clone();
+            tokio::spawn(async move {
+                let _ = s1.recv_loop().await;
+            });
+            let s2 = s.clone();
+            tokio::spawn(async move {
+                let _ = s2.process_stream_data().await;
+            });
+            while let Some(stream) = rx.recv().await {
+                let _ = s
+                    .write_control_frame(Frame::control(Command::SynAck, stream.id()))
+                    .await;
+                shared2.lock().unwrap().keep.push(stream);
+            }
+        });
+        (
+            Box::new(s2c_r) as BoxR,
+            Box::new(GateWriter { inner: c2s_w, gate }) as BoxW,
+        )
+    })
+}
+
+fn new_client(i: u64, t: u64, m: usize) -> Arc<Client> {
+    let cfg = SessionPoolConfig {
+        check_interval: ms(i),
+        idle_timeout: ms(t),
+        min_idle_sessions: m,
+    };
+    let tls = anytls_rs::util::tls::create_client_config().unwrap();
+    let connector = Arc::new(tokio_rustls::TlsConnector::from(tls));
+    let name = tokio_rustls::rustls::pki_types::ServerName::try_from("localhost".to_string()).unwrap();
+    Arc::new(Client::with_pool_config(
+        PASSWORD,
+        "127.0.0.1:1".to_string(),
+        name,
+        connector,
+        PaddingFactory::default(),
+        cfg,
+    ))
+}
+
+type ReqResult = anytls_rs::util::Result<(Arc<Stream>, Arc<Session>)>;
+
+struct PoolRun {
+    client: Arc<Client>,
+    pool: Arc<SessionPool>,
+    sessions: Vec<Arc<Session>>,
+    streams: Vec<(usize, Arc<Stream>)>,
+    waiting: VecDeque<tokio::task::JoinHandle<ReqResult>>,
+}
+
+impl PoolRun {
+    fn index_of(&mut self, s: &Arc<Session>) -> (usize, bool) {
+        for (k, x) in self.sessions.iter().enumerate() {
+            if x.id() == s.id() {
+                return (k, false);
+            }
+        }
+        self.sessions.push(s.clone());
+        (self.sessions.len() - 1, true)
+    }
+
+    fn take(&mut self, r: Result<ReqResult, tokio::task::JoinError>) -> String {
+        match r {
+            Ok(Ok((stream, session))) => {
+                let (k, new) = self.index_of(&session);
+                self.streams.push((k, stream));
+                format!("{}{}", if new { "n" } else { "u" }, k)
+            }
+            Ok(Err(_)) => "err".to_string(),
+            Err(_) => "panic".to_string(),
+        }
+    }
+
+    async fn snapshot(&self) -> String {
+        let mut s = format!("i{}", self.pool.idle_count().await);
+        for x in &self.sessions {
+            let (a, _b) = x.verif_table_sizes().await;
+            s.push_str(&format!(",{}{}", if x.is_closed() { "C" } else { "L" }, a));
+        }
+        s
+    }
+}
+
+fn parse_op(tok: &str) -> (u64, char, u64) {
+    let (t, rest) = tok.split_once(':').expect("op token t:op");
+    let t: u64 = t.parse().unwrap();
+    let c = rest.chars().next().unwrap();
+    let n: u64 = if rest.len() > 1 { rest[1..].parse().unwrap() } else { 0 };
+    (t, c, n)
+}
+
+/// pool <I> <T> <M> <t:op>...
+///   r   sequential request (the dial, if any, completes at once)       -> n<k> (new session k) | u<k> (reused)
+///   a   request whose dial, if any, waits at a gate                    -> u<k> | p (waiting in create_new_session)
+///   c   the oldest waiting dial completes                               -> n<k>
+///   d<k> one stream of session k is finished by the application
+///   x<k> session k dies (the server side goes away)
+///   t   a reaper tick is due at this instant (nothing to do here: the reaper runs by itself)
+/// after every op: i<idle_count>,{L|C}<stream table entries> per session in creation order
+fn pool(args: &[&str]) -> String {
+    let i: u64 = args[0].parse().unwrap();
+    let t: u64 = args[1].parse().unwrap();
+    let m: usize = args[2].parse().unwrap();
+    let ops: Vec<(u64, char, u64)> = args[3..].iter().map(|a| parse_op(a)).collect();
+    let rt = paused_rt();
+    rt.block_on(async move {
+        let start = Instant::now();
+        let shared = Arc::new(Mutex::new(Shared::default()));
+        let client = new_client(i, t, m);
+        client.verif_set_connector(Some(make_connector(shared.clone())));
+        let mut run = PoolRun {
+            pool: client.verif_session_pool(),
+            client,
+            sessions: Vec::new(),
+            streams: Vec::new(),
+            waiting: VecDeque::new(),
+        };
+        let mut out = Vec::new();
+        for (at, op, n) in ops {
+            tokio::time::sleep_until(start + ms(at)).await;
+            let res = match op {
+                'r' | 'a' => {
+                    shared.lock().unwrap().gated = op == 'a';
+                    let c = run.client.clone();
+                    let h = tokio::spawn(async move {
+                        c.create_proxy_stream(("192.0.2.1".to_string(), 80)).await
+                    });
+                    settle().await;
+                    if h.is_finished() {
+                        let r = h.await;
+                        run.take(r)
+                    } else if op == 'a' {
+                        run.waiting.push_back(h);
+                        "p".to_string()
+                    } else {
+                        h.abort();
+                        "stuck".to_string()
+                    }
+                }
+                'c' => {
+                    let g = shared.lock().unwrap().gates.pop_front();
+                    match (g, run.waiting.pop_front()) {
+                        (Some(g), Some(h)) => {
+                            let _ = g.send(());
+                            settle().await;
+                            if h.is_finished() {
+                                let r = h.await;
+                                run.take(r)
+                            } else {
+                                h.abort();
+                                "stuck".to_string()
+                            }
+                        }
+                        _ => {
+                            settle().await;
+                            "-".to_string()
+                        }
+                    }
+                }
+                'd' => {
+                    if let Some(p) = run.streams.iter().position(|(k, _)| *k == n as usize) {
+                        run.streams.remove(p);
+                    }
+                    settle().await;
+                    "-".to_string()
+                }
+                'x' => {
+                    let s = shared.lock().unwrap().servers.get(n as usize).cloned().flatten();
+                    if let Some(s) = s {
+                        let _ = s.close().await;
+                    }
+                    settle().await;
+                    "-".to_string()
+                }
+                _ => {
+                    settle().await;
+                    "-".to_string()
+                }
+            };
+            let snap = run.snapshot().await;
+            out.push(format!("{}/{}", res, snap));
+        }
+        let dials = shared.lock().unwrap().dials;
+        out.push(format!("dials={}", dials));
+        out.join(" ")
+    })
+}
+
+/// bpool <I> <T> <M> <t:op>...  (bare SessionPool API)
+///   n<seq> a new session object with this seq      i<k> add_idle_session(session k)
+///   g      get_idle_session -> s<k> | none         x<k> session k is closed
+///   e      cleanup_expired() is called             t    a reaper tick is due at this instant
+fn bpool(args: &[&str]) -> String {
+    let i: u64 = args[0].parse().unwrap();
+    let t: u64 = args[1].parse().unwrap();
+    let m: usize = args[2].parse().unwrap();
+    let ops: Vec<(u64, char, u64)> = args[3..].iter().map(|a| parse_op(a)).collect();
+    let rt = paused_rt();
+    rt.block_on(async move {
+        let start = Instant::now();
+        let pool = SessionPool::with_config(SessionPoolConfig {
+            check_interval: ms(i),
+            idle_timeout: ms(t),
+            min_idle_sessions: m,
+        });
+        let mut sessions: Vec<Arc<Session>> = Vec::new();
+        let mut out = Vec::new();
+        for (at, op, n) in ops {
+            tokio::time::sleep_until(start + ms(at)).await;
+            let mut res = "-".to_string();
+            match op {
+                'n' => {
+                    let (w, _h, _r, _tx) = transport::pipe();
+                    let (r, _tx2) = ChanReader::new();
+                    std::mem::forget(_tx2);
+                    let s = Arc::new(Session::new_client(r, w, PaddingFactory::default(), None));
+                    s.set_seq(n);
+                    sessions.push(s);
+                }
+                'i' => {
+                    if let Some(s) = sessions.get(n as usize) {
+                        pool.add_idle_session(s.clone()).await;
+                    }
+                }
+                'g' => {
+                    res = match pool.get_idle_session().await {
+                        Some(s) => match sessions.iter().position(|x| x.id() == s.id()) {
+                            Some(k) => format!("s{}", k),
+                            None => "unknown".to_string(),
+                        },
+                        None => "none".to_string(),
+                    };
+                }
+                'x' => {
+                    if let Some(s) = sessions.get(n as usize) {
+                        let _ = s.close().await;
+                    }
+                }
+                'e' => {
+                    pool.cleanup_expired().await;
+                }
+                _ => {}
+            }
+            settle().await;
+            let mut snap = format!("i{}", pool.idle_count().await);
+            for x in &sessions {
+                snap.push_str(if x.is_closed() { ",C" } else { ",L" });
+            }
+            out.push(format!("{}/{}", res, snap));
+        }
+        out.join(" ")
+    })
+}
+
+// ------------------------------------------------------------------------------------------------
+// C14: scripted peer
+
+struct PeerLog {
+    requests: Vec<u64>,
+    closed_at: Option<u64>,
+}
+
+/// reads the client's bytes, answers Syn with SynAck at once and the k-th HeartRequest after
+/// `script[k]` ms (None / beyond the script: never)
+async fn scripted_peer(
+    mut r: ChanReader,
+    w: RecWriter,
+    preamble: bool,
+    script: Vec<Option<u64>>,
+    start: Instant,
+    log: Arc<Mutex<PeerLog>>,
+) {
+    let w = Arc::new(tokio::sync::Mutex::new(w));
+    let mut buf = BytesMut::new();
+    let mut codec = FrameCodec;
+    let mut need_preamble = preamble;
+    let mut k = 0usize;
+    loop {
+        let n = match r.read_buf(&mut buf).await {
+            Ok(n) => n,
+            Err(_) => 0,
+        };
+        if n == 0 {
+            let mut l = log.lock().unwrap();
+            if l.closed_at.is_none() {
+                l.closed_at = Some(start.elapsed().as_millis() as u64);
+            }
+            return;
+        }
+        if need_preamble {
+            if buf.len() < 34 {
+                continue;
+            }
+            let pl = u16::from_be_bytes([buf[32], buf[33]]) as usize;
+            if buf.len() < 34 + pl {
+                continue;
+            }
+            let _ = buf.split_to(34 + pl);
+            need_preamble = false;
+        }
+        while let Ok(Some(f)) = codec.decode(&mut buf) {
+            match f.cmd {
+                Command::Syn => {
+                    let mut out = BytesMut::new();
+                    let _ = FrameCodec.encode(Frame::control(Command::SynAck, f.stream_id), &mut out);
+                    let mut g = w.lock().await;
+                    let _ = g.write_all(&out).await;
+                    let _ = g.flush().await;
+                }
+                Command::HeartRequest => {
+                    log.lock()
+                        .unwrap()
+                        .requests
+                        .push(start.elapsed().as_millis() as u64);
+                    let d = script.get(k).cloned().flatten();
+                    k += 1;
+                    if let Some(d) = d {
+                        let w2 = w.clone();
+                        let sid = f.stream_id;
+                        tokio::spawn(async move {
+                            if d > 0 {
+                                tokio::time::sleep(ms(d)).await;
+                            }
+                            let mut out = BytesMut::new();
+                            let _ = FrameCodec.encode(Frame::control(Command::HeartResponse, sid), &mut out);
+                            let mut g = w2.lock().await;
+                            let _ = g.write_all(&out).await;
+                            let _ = g.flush().await;
+                        });
+                    }
+                }
+                _ => {}
+            }
+        }
+    }
+}
+
+/// hb <mode> <I> <T> <H> <delay|x>...
+///   mode s: bare client `Session` with heartbeat (I, T);  c: through `Client` (pool config (I, T)), one stream open;
+///        ct: as c, with stream traffic every 700 ms
+///   the k-th keep-alive request is answered after delay ms (x: never); requests beyond the script are not answered
+/// result: q <request times> | c <close time> or o (still open at H)
+fn hb(args: &[&str]) -> String {
+    let mode = args[0].to_string();
+    let i: u64 = args[1].parse().unwrap();
+    let t: u64 = args[2].parse().unwrap();
+    let h: u64 = args[3].parse().unwrap();
+    let script: Vec<Option<u64>> = args[4..]
+        .iter()
+        .map(|a| if *a == "x" { None } else { Some(a.parse().unwrap()) })
+        .collect();
+    let rt = paused_rt();
+    rt.block_on(async move {
+        let start = Instant::now();
+        let log = Arc::new(Mutex::new(PeerLog {
+            requests: Vec::new(),
+            closed_at: None,
+        }));
+        let session: Arc<Session>;
+        let mut _keep: Vec<Arc<Stream>> = Vec::new();
+        let mut _client: Option<Arc<Client>> = None;
+        if mode == "s" {
+            let (c2s_w, _h1, c2s_r, _tx1) = transport::pipe();
+            let (s2c_w, _h2, s2c_r, _tx2) = transport::pipe();
+            tokio::spawn(scripted_peer(c2s_r, s2c_w, false, script, start, log.clone()));
+            let s = Arc::new(Session::new_client(
+                s2c_r,
+                c2s_w,
+                PaddingFactory::default(),
+                Some(SessionHeartbeatConfig {
+                    interval: ms(i),
+                    timeout: ms(t),
+                }),
+            ));
+            if s.clone().start_client().await.is_err() {
+                return "start-failed".to_string();
+            }
+            s.disable_buffering();
+            session = s;
+        } else {
+            let client = new_client(i, t, 1000);
+            let slot: Arc<Mutex<Option<(Vec<Option<u64>>, Arc<Mutex<PeerLog>>)>>> =
+                Arc::new(Mutex::new(Some((script, log.clone()))));
+            client.verif_set_connector(Some(Arc::new(move || {
+                let (c2s_w, _h1, c2s_r, _tx1) = transport::pipe();
+                let (s2c_w, _h2, s2c_r, _tx2) = transport::pipe();
+                if let Some((script, log)) = slot.lock().unwrap().take() {
+                    tokio::spawn(scripted_peer(c2s_r, s2c_w, true, script, start, log));
+                }
+                (Box::new(s2c_r) as BoxR, Box::new(c2s_w) as BoxW)
+            })));
+            match client.create_proxy_stream(("192.0.2.1".to_string(), 80)).await {
+                Ok((st, s)) => {
+                    _keep.push(st.clone());
+                    if mode == "ct" {
+                        let s2 = s.clone();
+                        let sid = st.id();
+                        tokio::spawn(async move {
+                            loop {
+                                tokio::time::sleep(ms(700)).await;
+                                if s2
+                                    .write_data_frame(sid, bytes::Bytes::from_static(b"traffic"))
+                                    .await
+                                    .is_err()
+                                {
+                                    break;
+                                }
+                            }
+                        });
+                    }
+                    session = s;
+                }
+                Err(_) => return "open-failed".to_string(),
+            }
+            _client = Some(client);
+        }
+        tokio::time::sleep_until(start + ms(h)).await;
+        settle().await;
+        let l = log.lock().unwrap();
+        let mut out = String::from("q");
+        for r in &l.requests {
+            out.push_str(&format!(" {}", r));
+        }
+        match l.closed_at {
+            Some(c) => {
+                out.push_str(&format!(" | c {}", c));
+                if !session.is_closed() {
+                    out.push_str(" flag-not-set");
+                }
+            }
+            None => {
+                out.push_str(" | o");
+                if session.is_closed() {
+                    out.push_str(" flag-set");
+                }
+            }
+        }
+        out
+    })
+}
 
 pub fn dispatch(drv: &str, args: &[&str]) -> Option<String> {
-    let _ = args;
     match drv {
+        "pool" => Some(pool(args)),
+        "bpool" => Some(bpool(args)),
+        "hb" => Some(hb(args)),
         _ => None,
     }
 }
